@@ -13,7 +13,7 @@
 -/
 import Lcapy.Props.C04
 import Lcapy.Proofs.PortOps
-import Lcapy.Props.C08
+import Lcapy.Proofs.TwoPortBase
 import Lcapy.Model.PortOps
 namespace Lcapy.C04
 open Lcapy.MNA Ix
@@ -223,15 +223,31 @@ theorem zparams_rel_unique (kind : Kind) (s : K) (cs : List (Cpt K)) (p1 m1 p2 m
   constructor <;> ring
 
 /-- **zparams_convert**: `Yparams`, `Hparams`-via-Z, `Aparams`-via-Z, `Bparams`-via-Z of a netlist are the code's own
-    conversions (GENERATED from twoport.py, proved sound in C08) of the extracted Z; each satisfies ITS port relation
-    for the same port quantities, under the pivot condition of the conversion. -/
+    conversions (GENERATED from twoport.py; the same statements are part of C08, re-proved here so that this file depends
+    only on the four conversions it talks about) of the extracted Z; each satisfies ITS port relation for the same port
+    quantities, under the pivot condition of the conversion. -/
 theorem zparams_convert (Z : M2 K) (p : Spec.Port K) (h : Spec.rel .Z Z 0 p) :
     (Z.det ≠ 0 → Spec.rel .Y (Gen.Z_to_Y Z 0) 0 p) ∧
     (Z.a22 ≠ 0 → Spec.rel .H (Gen.Z_to_H Z 0) 0 p) ∧
     (Z.a21 ≠ 0 → Spec.rel .A (Gen.Z_to_A Z 0) 0 p) ∧
-    (Z.a12 ≠ 0 → Spec.rel .B (Gen.Z_to_B Z 0) 0 p) :=
-  ⟨fun hd => (C08.Z_to_Y_sound Z 0 p hd).mp h, fun hd => (C08.Z_to_H_sound Z 0 p hd).mp h,
-   fun hd => (C08.Z_to_A_sound Z 0 p hd).mp h, fun hd => (C08.Z_to_B_sound Z 0 p hd).mp h⟩
+    (Z.a12 ≠ 0 → Spec.rel .B (Gen.Z_to_B Z 0) 0 p) := by
+  obtain ⟨V1, I1, V2, I2⟩ := p
+  refine ⟨fun hd => ?_, fun hd => ?_, fun hd => ?_, fun hd => ?_⟩
+  · obtain ⟨d, hdd⟩ : ∃ d, d = Z.det := ⟨_, rfl⟩
+    rw [← hdd] at hd
+    simp only [Spec.rel, Spec.lin, Gen.Z_to_Y, ← hdd] at h ⊢
+    simp only [M2.det] at hdd
+    obtain ⟨rfl, rfl⟩ := h
+    constructor <;> (field_simp; rw [hdd]; ring)
+  · simp only [Spec.rel, Spec.lin, Gen.Z_to_H, M2.det] at h ⊢
+    obtain ⟨rfl, rfl⟩ := h
+    constructor <;> (field_simp; ring)
+  · simp only [Spec.rel, Spec.lin, Gen.Z_to_A, M2.det] at h ⊢
+    obtain ⟨rfl, rfl⟩ := h
+    constructor <;> (field_simp; ring)
+  · simp only [Spec.rel, Spec.lin, Gen.Z_to_B, M2.det] at h ⊢
+    obtain ⟨rfl, rfl⟩ := h
+    constructor <;> (field_simp; ring)
 
 /-- short-circuit extraction (`Yparamsn`): unit voltage at one port, 0 V at the other; the port currents are the
     currents DELIVERED by the test sources -/
